@@ -234,7 +234,7 @@ THEOREMS = ["T_Extract2 / T_Extract3: construct(extract) along the matching dire
 
 
 def run(ctx):
-    res = core.run_model(ctx, "MC_C13", 1800, thorough_seeds=(2, 3, 5))
+    res = core.run_model(ctx, "MC_C13", 1800, thorough_seeds=(2, 3, 5, 7))
     core.tlc_must_pass(res, "MC_C13")
     ctx.add_tlc(res, "surfaces and volumes with pairwise different sizes x every layout operation")
     ctx.theorems = THEOREMS
